@@ -217,6 +217,14 @@ func TestWorker(t *testing.T) {
 		}
 		if oc.Sys != nil {
 			// linearizability of the recorded system-font-cache history (outside the bubble)
+			rep.LinOps = len(oc.Sys.Ops)
+			for i, a := range oc.Sys.Ops {
+				for _, b := range oc.Sys.Ops[i+1:] {
+					if a.ClientId != b.ClientId && a.Call < b.Return && b.Call < a.Return {
+						rep.LinConcurrent++
+					}
+				}
+			}
 			if ok, _, detail := CheckSysHistory(oc.Sys); !ok {
 				rep.Violations = append(rep.Violations, Violation{Class: "linearizability", Op: "system-font-cache",
 					Detail: "no sequential order of the calls explains the results: " + detail, Sig: "linearizability:system-font-cache"})
